@@ -342,6 +342,7 @@ inductive Line where
   | slashBad (k : Nat)   -- starts with '/', does not parse
   | noSlash (k : Nat)    -- does not start with '/' (comment, blank-prefixed, garbage)
   | empty
+  | long                 -- an (unparsable) line of 64 KiB or more
   deriving DecidableEq, Repr
 
 /-- `SavePeerstore`: one line per address, peers in the given order -/
@@ -353,8 +354,10 @@ def Line.loads : Line → Bool
   | .bare _ => true
   | _ => false
 
-/-- `LoadPeerstore` (after fcf3a57): every line that parses, in file order -/
-def load (file : List Line) : List Line := file.filter Line.loads
+/-- `LoadPeerstore` (after fcf3a57): every line that parses, in file order — up to the first line
+    of 64 KiB or more: `bufio.Scanner` gives up there (ErrTooLong, logged) and the rest of the
+    file is not read. -/
+def load (file : List Line) : List Line := (file.takeWhile (fun l => l != .long)).filter Line.loads
 
 /-- `ImportPeers` walks the loaded addresses with their index `i` and sets priority `i` on the
     peer of every importable entry: what remains is the index of the peer's last entry -/
